@@ -22,16 +22,16 @@ pub fn dump_crate<'tcx>(tcx: TyCtxt<'tcx>) -> J {
 		let did = ldid.to_def_id();
 		match tcx.def_kind(did) {
 			DefKind::Struct | DefKind::Enum | DefKind::Union => {
-				adts.push(dump_adt(tcx, ldid, ev.is_reachable(ldid)));
+				adts.push(dump_adt(tcx, ldid, ev.is_reachable(ldid)).set("exported", ev.is_exported(ldid).into()));
 			}
 			DefKind::Trait => {
-				traits.push(dump_trait(tcx, ldid, ev.is_reachable(ldid)));
+				traits.push(dump_trait(tcx, ldid, ev.is_reachable(ldid)).set("exported", ev.is_exported(ldid).into()));
 			}
 			DefKind::Impl { .. } => {
 				impls.push(dump_impl(tcx, ldid));
 			}
 			DefKind::Fn | DefKind::AssocFn | DefKind::Closure => {
-				fns.push(dump_fn(tcx, ldid, ev.is_reachable(ldid)));
+				fns.push(dump_fn(tcx, ldid, ev.is_reachable(ldid)).set("exported", ev.is_exported(ldid).into()));
 			}
 			DefKind::Static { .. } => {
 				let mut o = J::obj();
